@@ -38,6 +38,19 @@ def main():
     rng = random.Random(chk.seed)
     if not thorough and len(decks) > 700:
         decks = rng.sample(decks, 700)
+    # every third flag assignment also with all surfaces carrying one TR card (the flag must survive the
+    # transformation pass; twins with equal cards and equal TR but different flags stay different surfaces)
+    import copy
+    moved = []
+    for i, d in enumerate(decks):
+        if i % 3 == 0:
+            d2 = copy.deepcopy(d)
+            for sf in d2['surfs']:
+                sf['tr'] = 7
+            d2['trs'] = [{'n': 7, 'o': [1, 0, -1], 'm': [0, 1, 0, -1, 0, 0, 0, 0, 1], 'spell': '12'}]
+            d2['variant'] = str(d2.get('variant')) + '+tr'
+            moved.append(d2)
+    decks = decks + moved
     core.lap('generator')
     recs, verdicts, nd, meta = common_univ.run(
         chk, decks, 'owner,bc', chk.seed, lambda d, r: [[], ['--skip-deduplication']], npts=40, lo=-9, hi=9)
